@@ -405,13 +405,19 @@ def run_walks(drv, rng, stats: Stats, on_fail, worlds, walks_per_world, steps, r
             wf = reachable_only or rng.random() < 0.7
             views = [sess.gen.start_view(wellformed=wf) for _ in range(nag)]
             history = [[] for _ in range(nag)]      # per agent: (canon snapshot, view object)
+            last_returned = [copy.deepcopy(v) for v in views]      # what each agent was last given, never refreshed
             for ag, v in enumerate(views):
                 history[ag].append((copy.deepcopy(v), v))
             # probe script for C08: recorded in the first episode, replayed after reset
             script = []
+            probe_next = []      # agents whose current view object was changed behind their back: let them play a refused action next
             for si in range(steps):
                 ag = rng.randrange(nag)
                 act = sess.gen.action(views[ag], singling=0.3)
+                if probe_next:
+                    ag = probe_next.pop(0)
+                    outsider = [x for x in sess.gen.ips if x not in views[ag].controlled_hosts] or [IP("10.99.99.99")]
+                    act = Action(ActionType.FindServices, {"source_host": rng.choice(outsider), "target_host": sess.gen.any_ip(views[ag])})
                 rec = sess.step(views[ag], act)
                 stats.steps += 1
                 t = rec["action"]["t"]
@@ -426,6 +432,34 @@ def run_walks(drv, rng, stats: Stats, on_fail, worlds, walks_per_world, steps, r
                         stats.guard_only_false[(t, rec["guards"].index(False))] = stats.guard_only_false.get((t, rec["guards"].index(False)), 0) + 1
                 if rec.get("model_raised") or rec.get("real_raised"):
                     stats.raised += 1
+                if rec.get("new") is not None and not rec["pre"] and rec["new"] != last_returned[ag]:
+                    on_fail("C02", "changed-vs-previous:" + t,
+                            f"{t} with a false precondition returned a view that differs from the view returned to the agent before (in {sess.label})",
+                            replay_of(sess, rec, {"previous_view": C.view2j(last_returned[ag])}))
+                if not rec["agree"] and t == "scan" and rec.get("real_view") is not None and "known" in rec["diff"]:
+                    extra = set(C.canon_view(rec["real_view"])["known"]) - set(C.canon_view(rec["model_view"])["known"])
+                    if extra:
+                        on_fail("C02", "scan-adds-unreachable",
+                                f"ScanNetwork added hosts {sorted(extra)} that exist in the network but that the source may not connect to (firewall) in {sess.label}",
+                                replay_of(sess, rec))
+                if not rec["agree"] and nag > 1 and rec.get("real_view") is not None:
+                    # several agents share the world: did the acting agent gain something its own action (on the
+                    # shared tables as they are) does not justify?
+                    rv, mv = C.canon_view(rec["real_view"]), C.canon_view(rec["model_view"])
+                    gained = []
+                    for part in ("controlled", "known", "nets"):
+                        if set(rv[part]) - set(mv[part]):
+                            gained.append(part)
+                    for part in ("services", "data", "blocks"):
+                        md = dict(mv[part])
+                        for k, vals in rv[part]:
+                            if set(vals) - set(md.get(k, [])):
+                                gained.append(part)
+                                break
+                    if gained:
+                        on_fail("C12", "gained:" + t + ":" + ",".join(gained),
+                                f"with {nag} agents on the shared world, {t} gave the acting agent {gained} beyond what its own action yields on the shared tables ({sess.label})",
+                                replay_of(sess, rec))
                 if not rec["agree"]:
                     prop = "C03" if rec["pre"] else "C02"
                     on_fail(prop, sig_step(rec),
@@ -457,6 +491,7 @@ def run_walks(drv, rng, stats: Stats, on_fail, worlds, walks_per_world, steps, r
                 if any(id(x) in prev_ids for x in mine):
                     on_fail("C11", "alias-view:" + t, f"{t} returned a view that shares a container object with a view returned earlier", replay_of(sess, rec))
                 history[ag].append((copy.deepcopy(new), new))
+                last_returned[ag] = copy.deepcopy(new)
                 views[ag] = new
                 script.append((ag, act))
                 # every view returned earlier must still have its value
@@ -469,6 +504,8 @@ def run_walks(drv, rng, stats: Stats, on_fail, worlds, walks_per_world, steps, r
                                     f"a view returned earlier to agent {ag2} changed when agent {ag} executed {t} in {sess.label}",
                                     replay_of(sess, rec, {"victim_agent": ag2, "acting_agent": ag}))
                             hs[[id(x[1]) for x in hs].index(id(vv))] = (copy.deepcopy(vv), vv)
+                            if vv is views[ag2] and ag2 not in probe_next:
+                                probe_next.append(ag2)
                 if nag > 1 and rec.get("changed"):
                     stats.cross_agent.add(hash(json.dumps([rec["view"], rec["action"]], sort_keys=True)))
             if resets:
